@@ -60,7 +60,7 @@ type rootRec struct {
 
 type world struct {
 	secure  bool
-	disk    *youdb.MemDatabase
+	disk    *recDisk
 	db      *trie.Database
 	tr      *trie.Trie
 	st      *trie.SecureTrie
@@ -70,6 +70,7 @@ type world struct {
 	limit   uint16
 	pool    [][]byte // proof blobs seen so far (for node substitution)
 	known   map[common.Hash]bool // hashes the Lean Database model currently has in memory
+	expectOrder string           // order of node writes of the last Database.Commit / Cap ("n:digest")
 	touched map[string]bool      // user keys written through the live SecureTrie object (their preimages must be findable)
 	// statistics
 	maxSize    int
@@ -78,7 +79,7 @@ type world struct {
 
 func newWorld(secure bool) *world {
 	w := &world{secure: secure, content: map[string][]byte{}, base: -1, known: map[common.Hash]bool{}}
-	w.disk = youdb.NewMemDatabase()
+	w.disk = newRecDisk()
 	w.db = trie.NewDatabase(w.disk)
 	w.open(common.Hash{})
 	return w
@@ -223,7 +224,7 @@ func (r *runner) runSeq(lines []string) (fail *seqFail, w *world, err error) {
 		if len(f) == 0 {
 			continue
 		}
-		if w == nil && f[0] != "RESET" && f[0] != "MODE" && f[0] != "DS" && f[0] != "V" && f[0] != "VK" {
+		if w == nil && f[0] != "RESET" && f[0] != "MODE" && f[0] != "DS" && f[0] != "V" && f[0] != "VK" && f[0] != "CRASH" {
 			w = newWorld(false)
 			if _, e := r.ask("RESET"); e != nil {
 				return nil, w, e
@@ -412,6 +413,47 @@ func (r *runner) runSeq(lines []string) (fail *seqFail, w *world, err error) {
 				r.dist("iter-prefixfree")
 			} else {
 				r.dist("iter-with-prefix-keys")
+			}
+			// Iterator.Prove (nodeIterator.LeafProof) at one leaf must be the proof Trie.Prove builds for that key
+			if len(kvs) > 0 {
+				j := i % len(kvs)
+				what := guarded(func() string {
+					var it *trie.Iterator
+					if w.secure {
+						it = trie.NewIterator(w.st.NodeIterator(start))
+					} else {
+						it = trie.NewIterator(w.tr.NodeIterator(start))
+					}
+					for n := 0; n <= j; n++ {
+						if !it.Next() {
+							return "iterator ended early"
+						}
+					}
+					lp := it.Prove()
+					var rp recPutter
+					var e error
+					if w.secure {
+						e = w.st.Prove(it.Key, 0, &rp)
+					} else {
+						e = w.tr.Prove(it.Key, 0, &rp)
+					}
+					if e != nil {
+						return "Prove: " + e.Error()
+					}
+					if len(lp) != len(rp.vals) {
+						return fmt.Sprintf("Iterator.Prove has %d nodes, Trie.Prove %d", len(lp), len(rp.vals))
+					}
+					for n := range lp {
+						if !bytes.Equal(lp[n], rp.vals[n]) {
+							return fmt.Sprintf("node %d differs", n)
+						}
+					}
+					return "ok"
+				})
+				r.dist("iterator-leafproof-compared")
+				if what != "ok" {
+					return mkfail("oracle", i, "Iterator.Prove at leaf %d disagrees with Trie.Prove: %s", j, what), w, nil
+				}
 			}
 			cmd := "I"
 			if have {
@@ -633,6 +675,7 @@ func (r *runner) runSeq(lines []string) (fail *seqFail, w *world, err error) {
 					r.dist("skipped-commit-dead-root")
 					continue
 				}
+				w.disk.log = nil
 				g := guarded(func() string {
 					if e := w.db.Commit(rr.hash, false); e != nil {
 						return "err:" + e.Error()
@@ -643,6 +686,7 @@ func (r *runner) runSeq(lines []string) (fail *seqFail, w *world, err error) {
 					return mkfail("oracle", i, "Database.Commit failed: %s", g), w, nil
 				}
 				rr.persisted = true
+				w.expectOrder = w.disk.nodeOrder()
 				if fl, e := r.dbSync(w, i, lines[i], "DBCOMMIT "+hx(rr.hash.Bytes())); fl != nil || e != nil {
 					return fl, w, e
 				}
@@ -686,6 +730,7 @@ func (r *runner) runSeq(lines []string) (fail *seqFail, w *world, err error) {
 			}
 		case "CAP":
 			n, _ := strconv.Atoi(f[1])
+			w.disk.log = nil
 			g := guarded(func() string {
 				if e := w.db.Cap(common.StorageSize(n)); e != nil {
 					return "err:" + e.Error()
@@ -695,6 +740,7 @@ func (r *runner) runSeq(lines []string) (fail *seqFail, w *world, err error) {
 			if g != "ok" {
 				return mkfail("oracle", i, "Cap failed: %s", g), w, nil
 			}
+			w.expectOrder = w.disk.nodeOrder()
 			if fl, e := r.dbSync(w, i, lines[i], fmt.Sprintf("DBCAP %d", n)); fl != nil || e != nil {
 				return fl, w, e
 			}
@@ -713,6 +759,16 @@ func (r *runner) runSeq(lines []string) (fail *seqFail, w *world, err error) {
 					}
 					r.dist("chk-root-readable-after-restart")
 				}
+			}
+		case "CRASH":
+			if len(f) < 4 {
+				continue
+			}
+			n, _ := strconv.Atoi(f[1])
+			vl, _ := strconv.Atoi(f[2])
+			sd, _ := strconv.ParseUint(f[3], 10, 64)
+			if fl := r.crashCase(i, lines[i], n, vl, sd); fl != nil {
+				return fl, w, nil
 			}
 		case "DS":
 			var items [][]byte
@@ -892,8 +948,16 @@ func (r *runner) dbSync(w *world, li int, line string, op string) (*seqFail, err
 			}
 		}
 	} else {
-		if _, e := r.ask(op); e != nil {
+		m, e := r.ask(op)
+		if e != nil {
 			return nil, e
+		}
+		if strings.HasPrefix(op, "DBCOMMIT ") || strings.HasPrefix(op, "DBCAP ") {
+			// the SEQUENCE of node writes (first occurrences), not only the final set
+			r.dist("db-write-order-compared")
+			if m != "ok "+w.expectOrder {
+				return &seqFail{kind: "correspondence", line: li, what: fmt.Sprintf("line %d `%s` (%s): order of disk writes differs: go=%s lean=%s (the model writes children before parents)", li, trunc(line, 80), op, w.expectOrder, m)}, nil
+			}
 		}
 	}
 	// canonical text of the Go state
@@ -910,7 +974,7 @@ func (r *runner) dbSync(w *world, li int, line string, op string) (*seqFail, err
 		mt = append(mt, fmt.Sprintf("%x:%d", h.Bytes(), c))
 	}
 	sort.Strings(mt)
-	for _, k := range w.disk.Keys() {
+	for _, k := range w.disk.MemDatabase.Keys() {
 		if len(k) == 32 {
 			dk = append(dk, hex.EncodeToString(k))
 		}
@@ -919,7 +983,8 @@ func (r *runner) dbSync(w *world, li int, line string, op string) (*seqFail, err
 	dg := func(parts []string) string {
 		return fmt.Sprintf("%d:%s", len(parts), hex.EncodeToString(crypto.Keccak256([]byte(strings.Join(parts, ","))))[:16])
 	}
-	g := fmt.Sprintf("mem=%s meta=%s disk=%s", dg(mem), dg(mt), dg(dk))
+	// ordered-closed=true: the model state satisfies the hypotheses of the Lean theorem db_commit_children_first
+	g := fmt.Sprintf("mem=%s meta=%s disk=%s ordered-closed=true", dg(mem), dg(mt), dg(dk))
 	m, e := r.ask("DBDUMP")
 	if e != nil {
 		return nil, e
